@@ -19,7 +19,7 @@ pub fn exec(it: &mut Interp, toks: &[&str], out: &mut Vec<String>) -> bool {
 /// The group of the given ids, built through one of the crate's public constructors (chosen by
 /// the ids themselves, so that a replay builds it the same way): `From<Vec<u32>>` and
 /// `From<Vec<HpoTermId>>` (as given with non-adjacent repeats / ascending with repeated elements), `FromIterator<HpoTermId>`
-/// (as given with the largest id once more at the end / ascending with repeats), `insert` by `insert`.
+/// (as given with the largest id once more at the end / ascending with repeats), `insert` by `insert`, `From<HashSet<HpoTermId>>`.
 /// All of them yield the same sorted duplicate-free set (C12).
 pub fn mk_group(ids: &[u32]) -> HpoGroup {
     let tid = |v: &[u32]| -> Vec<HpoTermId> { v.iter().map(|x| HpoTermId::from(*x)).collect() };
@@ -34,7 +34,8 @@ pub fn mk_group(ids: &[u32]) -> HpoGroup {
         w
     };
     let h = ids.iter().fold(ids.len() as u64, |a, x| (a * 31 + u64::from(*x)) % 1_000_003);
-    match h % 6 {
+    match h % 7 {
+        6 => HpoGroup::from(tid(ids).into_iter().collect::<HashSet<HpoTermId>>()),
         0 => HpoGroup::from(with_repeats(ids)),
         1 => HpoGroup::from(tid(&with_repeats(ids))),
         2 => {
